@@ -66,7 +66,7 @@ func main() {
 		}
 	}
 	rng := vutil.Rng(6 + 1000**salt)
-	kinds := []string{"Transfer", "Transfer", "Transfer", "Deploy", "EthForward", "EthStale", "CallForward", "CallRevert", "SelfDestruct", "CallCreate", "Stake", "Refund", "Mature"}
+	kinds := []string{"Transfer", "Transfer", "Transfer", "Deploy", "EthForward", "EthStale", "SelfDestruct2", "CallForward", "CallRevert", "SelfDestruct", "CallCreate", "Stake", "Refund", "Mature"}
 	for i := 0; i < *nRandom; i++ {
 		ops := make([]ledgerops.AbsOp, 0, *length)
 		for j := 0; j < *length; j++ {
@@ -80,7 +80,7 @@ func main() {
 			case r < 4:
 				amt = "1000000001" // more than any balance
 			case r < 6:
-				amt = []string{"=bal", "=bal+"}[rng.Intn(2)]
+				amt = []string{"=bal", "=bal+", "=max"}[rng.Intn(3)]
 			}
 			gas := ""
 			if rng.Intn(5) == 0 {
